@@ -22,7 +22,10 @@
 //!             G                        Program::gc()
 //!           `@s` = set_max_stack(s) for this request.
 //!
+//!             big=<hex>    the large limit of the third run (default 100000)
 //! output:  <shared outcomes ';' separated> TAB <fresh outcomes ';' separated>
+//!          TAB <for every request whose fresh outcome is StackOverflow: its outcome on a fresh state
+//!               under the large limit; '-' otherwise>
 //!   outcome = ok | V:<rendered value, code points> | S:<manifested text, code points>
 //!           | E:<LOAD|EVAL>:<variant>:<user message code points or -> | nocall | P (panic) | A (after a panic)
 use crate::wire::*;
@@ -348,11 +351,13 @@ fn guarded<F: FnOnce() -> String>(f: F) -> String {
 pub fn handle(args: &[String]) -> String {
     let mut gc = 0usize;
     let mut default_stack = 500usize;
+    let mut big_stack = 100_000usize;
     for kv in args[0].split(';').filter(|x| !x.is_empty()) {
         let (k, v) = kv.split_once('=').unwrap_or((kv, ""));
         match k {
             "gc" => gc = hex_usize(v),
             "stack" => default_stack = hex_usize(v),
+            "big" => big_stack = hex_usize(v),
             _ => {}
         }
     }
@@ -407,5 +412,21 @@ pub fn handle(args: &[String]) -> String {
         });
         fresh.push(o);
     }
-    format!("{}\t{}", shared.join(";"), fresh.join(";"))
+    // a request that overflows the stack on a fresh state is run once more on a fresh state with a
+    // large limit: the reference for answers that memoisation made cheaper on the long-lived state
+    let mut roomy: Vec<String> = Vec::new();
+    for (i, (r, _)) in reqs.iter().enumerate() {
+        if !fresh[i].starts_with("E:EVAL:StackOverflow") {
+            roomy.push("-".into());
+            continue;
+        }
+        let arena = Arena::new();
+        let lc = lc_for(i);
+        let o = guarded(|| {
+            let mut st = State::new(&arena, &sources, gc);
+            st.step(r, big_stack, lc)
+        });
+        roomy.push(o);
+    }
+    format!("{}\t{}\t{}", shared.join(";"), fresh.join(";"), roomy.join(";"))
 }
